@@ -260,8 +260,11 @@ def timed(fn, *args, default=None, limit=CASE_LIMIT, **kw):
     def on_alarm(signum, frame):
         raise CaseTimeout()
 
+    import time
+    outer = signal.getitimer(signal.ITIMER_REAL)[0]      # the check's own watchdog, when called in the main process
+    t0 = time.time()
     old = signal.signal(signal.SIGALRM, on_alarm)
-    signal.setitimer(signal.ITIMER_REAL, limit)
+    signal.setitimer(signal.ITIMER_REAL, limit if not outer else min(limit, outer))
     try:
         return fn(*args, **kw)
     except CaseTimeout:
@@ -269,6 +272,8 @@ def timed(fn, *args, default=None, limit=CASE_LIMIT, **kw):
     finally:
         signal.setitimer(signal.ITIMER_REAL, 0)
         signal.signal(signal.SIGALRM, old)
+        if outer:
+            signal.setitimer(signal.ITIMER_REAL, max(0.05, outer - (time.time() - t0)))
 
 
 def real_side(data):
@@ -351,7 +356,7 @@ def _pyeval_work(batch):
             out.append(None)
             continue
         try:
-            real = vmlib.real_py_eval(d)
+            real = timed(vmlib.real_py_eval, d, default="TIMEOUT (no answer after %d s)" % CASE_LIMIT)
         except RecursionError:
             real = "SKIP"
         names = [o if isinstance(o, str) else o[0] for o in ops]
